@@ -144,7 +144,10 @@ P = {
          "middleware never move it backwards and never past a pending completion; the clock invariant NO (nothing pending lies in the "
          "past) holds in every live reachable state and micro-state, with reflection to the extracted clock_b. Translation invariance "
          "is refuted by theorem for instances with outages (C12_shift_refuted: same instance and action, start 0 vs 7, clocks 3 vs "
-         "8; witness replayed on the implementation on every run; known finding) and explored otherwise (paired runs). Event-exactness over whole "
+         "8; witness replayed on the implementation on every run; known finding); for instances WITHOUT outage definitions it is a theorem for whole "
+         "episodes - every handler, the timed-transition creation, the offers, the time machines, step, middleware and environment commute with shifting "
+         "every time stamp by K, for every oracle, fuel and action sequence (C12_episodes_are_translation_invariant_without_outages, SMP/Shift.v); paired "
+         "runs of the implementation with two start times are compared state by state on every run. Event-exactness over whole "
          "runs of every instance: every timed transition of every micro-log is applied with the clock equal to its component's occupied_till "
          "(C12_events_fire_exactly_when_due_along_every_run, SMP/Due.v). " + TIE),
  "C13": ("Seed", "Theorems (Props/C13.v; Seed/SeedModel, SMP/NoStoch): in the model of seeding/reset the k-th episode depends only on "
